@@ -1,10 +1,14 @@
 import MuduoVerif.Model.Calendar
 import MuduoVerif.Model.Zone
+import MuduoVerif.Model.TzFile
 import MuduoVerif.Model.Inet
 import Driver.Util
 /-! `drv_calendar`: the calendar / zone / inet models behind the line protocol of
 harness/calendar_drv.cc (C20).  Lines starting with `#` are extras for the plug-in (never
-compared): the well-formedness verdict of the loaded zone data. -/
+compared): the well-formedness verdict of the loaded zone data.  A zone file is read by `TzFile.parse`
+(`Model/TzFile.lean`: muduo's reader with the parameters extracted from the source); the table it
+yields is printed entry by entry (the harness prints `TimeZone::Data` the same way) and is what the
+look-ups of `Model/Zone.lean` then run on. -/
 namespace Driver.CalendarDrv
 open MuduoVerif MuduoVerif.Gen.Calendar MuduoVerif.Calendar MuduoVerif.Zone MuduoVerif.Inet Driver
 
@@ -31,12 +35,29 @@ def daysDigest (j0 : Int) (n : Nat) : UInt64 := Id.run do
 
 def ints (ws : List String) : Option (List Int) := ws.mapM String.toInt?
 
-def zoneLines (r : Option Data) : List String :=
+def errText : TzFile.Err → String
+  | .logic msg => msg
+  | .lengthError => "length"
+  | .outOfRange => "range"
+  | .rejected => "rejected"
+  | .undefined what => "undefined: " ++ what
+
+/-- `zone ok` + the loaded table entry by entry, or `zone invalid` + the kind of failure -/
+def zoneLines (r : TzFile.R TzFile.Loaded) : List String :=
   match r with
-  | some d =>
+  | .ok l =>
+    let d := l.data
     [s!"# wf {if decide (WF d) then 1 else 0} n {d.n} types {d.localtimes.size} first {(d.tr 0).utctime} last {(d.tr (d.n - 1)).utctime}",
-     "zone ok"]
-  | none => ["zone invalid"]
+     "zone ok", s!"tab n {d.n} types {d.localtimes.size}"]
+    ++ (List.range d.n).map (fun i => s!"tr {i} {(d.tr i).utctime} {(d.tr i).localtime} {(d.tr i).localtimeIdx}")
+    ++ (List.range d.localtimes.size).map (fun i => s!"lt {i} {(d.lt i).utcOffset} {if (d.lt i).isDst then 1 else 0} {(d.lt i).desigIdx}")
+    ++ [s!"abbr |{toHex l.abbreviation}|", s!"tz |{toHex l.tzstring}|"]
+  | .error e => ["zone invalid", s!"err |{errText e}|"]
+
+def zoneOf (r : TzFile.R TzFile.Loaded) : Option Data :=
+  match r with
+  | .ok l => some l.data
+  | .error _ => none
 
 def q (s : String) : String := "|" ++ s ++ "|"
 
@@ -72,15 +93,18 @@ def exec (s : St) (ws : List String) : St × List String :=
       match words e with
       | ["<", "bytes", hex] => match parseHex hex with
         | some bs =>
-          let r := readTimeZoneFile bs.toArray
-          ({ zone := r, env := rest }, zoneLines r)
+          let r := TzFile.parse bs
+          ({ zone := zoneOf r, env := rest }, zoneLines r)
         | none => (s, ["bad-env"])
       | _ => (s, ["bad-env"])
     | [] => ({ s with zone := none }, ["zone unreadable"])
+  | ["zonebytes"] =>
+    let r := TzFile.parse []
+    ({ s with zone := zoneOf r }, zoneLines r)
   | ["zonebytes", hex] => match parseHex hex with
     | some bs =>
-      let r := readTimeZoneFile bs.toArray
-      ({ s with zone := r }, zoneLines r)
+      let r := TzFile.parse bs
+      ({ s with zone := zoneOf r }, zoneLines r)
     | none => (s, ["bad-op"])
   | ["fixedzone", off] => match off.toInt? with
     | some off => ({ s with zone := some (fixed off) }, ["zone ok"])
